@@ -13,6 +13,9 @@ Scenario families (inp["family"]); every family is compared with the model of th
             is called again on the same objects until it returns
   netupdate constraints are changed in place (update/add/remove_constraint) at the end of chosen
             scheduler calls; later views must show the new description
+  sibling   an earlier experiment on a separately built network with the same station ids (EVSEs from the
+            site factory get_evse_by_type) is aborted by a scheduler fault with EVs plugged in; then the input
+            is run on a freshly built network
   deepcopy  the freshly built Simulator is duplicated with copy.deepcopy; the COPY is run first (it must
             behave like the model and be bound to its own scheduler / interface / network), then the original
 Orthogonal options: inp["late_fill"] (the Simulator is built around a still empty EventQueue that the
@@ -36,7 +39,9 @@ TYPE_CODE = {"Plugin": 0, "Unplug": 1, "Recompute": 2, "": 3, "Maintenance": 4, 
 EXPECTED_RANK = {"Unplug": 0, "Maintenance": 0.5, "Plugin": 1, "Recompute": 2, "Tick": 3, "": 4}
 RESOLVING = ("Plugin", "Unplug", "Recompute")
 # queue entries the simulator does not dispatch on: (class, precedence as encoded for the model, event_type)
-OTHER_KINDS = {"bare": (10 ** 9, ""), "maint": (5, "Maintenance"), "tick": (30, "Tick")}
+# "replan": a user-defined direct subclass of Event LABELLED "Recompute" (e.g. a tariff change that forces a
+# re-plan): the simulator dispatches on the label, so it must trigger the scheduler like a RecomputeEvent
+OTHER_KINDS = {"bare": (10 ** 9, ""), "maint": (5, "Maintenance"), "tick": (30, "Tick"), "replan": (25, "Recompute")}
 NUMERIC_ERRORS = ("InvalidRateError", "InvalidScheduleError")   # raised because of what the scheduler returned
 
 
@@ -202,7 +207,7 @@ def gen_input(rng, tier="quick", malformed=None, family=None, shared_ids=False):
         for _ in range(rng.randint(1, 3)):
             c = rng.random()
             t = last + rng.randint(1, 5) if c < 0.4 else (rng.choice(times) if times and c < 0.7 else rng.randint(0, horizon))
-            others.append([t, rng.choice(["bare", "bare", "maint", "tick"])])
+            others.append([t, rng.choice(["bare", "bare", "maint", "tick", "replan", "replan"])])
     sched_kind = rng.choice(["zero", "empty", "scripted", "scripted", "uncontrolled", "fcfs"])
     if sched_kind == "fcfs":
         # the sorted algorithms allocate any rate in [0, max] on a "continuous" station; on a
@@ -218,7 +223,8 @@ def gen_input(rng, tier="quick", malformed=None, family=None, shared_ids=False):
                sched=dict(kind=sched_kind, seed=rng.randrange(10 ** 9)), malformed=malformed,
                idstyle=rng.choice(ID_STYLES), family=family or "plain",
                np_types=rng.random() < 0.3, others=others,
-               late_fill=(family != "reuse" and rng.random() < 0.2), fill_one_by_one=rng.random() < 0.5)
+               late_fill=(family != "reuse" and rng.random() < 0.2), fill_one_by_one=rng.random() < 0.5,
+               guest_plugins=rng.random() < 0.15)
     if family == "resume":
         how = rng.choice(["same", "copy", "json"])       # resume the same object / a deep copy / a JSON reload
         inp["copy_on_resume"] = how == "copy"
@@ -251,13 +257,31 @@ def gen_input(rng, tier="quick", malformed=None, family=None, shared_ids=False):
         pre["sched"]["kind"] = rng.choice(["zero", "scripted", "uncontrolled"])
         pre["family"] = "plain"
         inp["prelude"] = pre
+    elif family == "sibling":
+        # an earlier experiment on a separately BUILT network with the same station ids (not a deep copy),
+        # aborted by a scheduler fault while EVs are plugged in; then this one on a freshly built network
+        pre = gen_input(rng, tier)
+        pre["net"] = copy.deepcopy(net)
+        pre["idstyle"] = inp["idstyle"]
+        pre["sessions"] = gen_sessions(rng, net, horizon=horizon // 2)
+        while not pre["sessions"]:
+            pre["sessions"] = gen_sessions(rng, net, horizon=horizon // 2)
+        pre["recomputes"], pre["others"] = [], []
+        pre["sched"]["kind"] = rng.choice(["zero", "scripted", "uncontrolled"])
+        pre["family"] = "plain"
+        pre["raise_at"] = [rng.choice([1, 1, 2, 3])]
+        pre["raise_kind"] = rng.choice(["Exception", "BaseException"])
+        pre["abort"] = True
+        inp["prelude"] = pre
     elif family == "twin":
         tw = gen_input(rng, tier)
         tnet = copy.deepcopy(net)
         for st in tnet["stations"]:            # same ids, other values
             st["voltage"] = rng.choice([v for v in [120, 208, 240, 277] if v != st["voltage"]])
             st["phase"] = rng.choice([p for p in [0, 30, -30, 150, 90] if p != st["phase"]])
-            if st["kind"][0] in "CD":
+            if rng.random() < 0.5:
+                pass                                   # same EVSE type (factory-built types stay factory-built)
+            elif st["kind"][0] in "CD":
                 st["kind"] = (st["kind"][0], st["kind"][1], st["kind"][2] + rng.choice([8, 16]))
             else:
                 st["kind"] = ("F", tuple(rng.choice([[0, 8, 16, 24, 32, 48], [10, 20], [6, 12.5, 30, 31]])))
@@ -350,7 +374,15 @@ class Names:
 
 def make_evse(st, name):
     from acnportal.acnsim.models import EVSE, DeadbandEVSE, FiniteRatesEVSE
+    from acnportal.acnsim.models.evse import get_evse_by_type, BASIC, AV, CC
     kind = st["kind"]
+    # the station types of the predefined sites come from the factory, as in the site constructors
+    if tuple(kind) == ("C", 0, 32):
+        return get_evse_by_type(name, BASIC)
+    if kind[0] == "F" and list(kind[1]) == [0] + list(range(6, 33)):
+        return get_evse_by_type(name, AV)
+    if kind[0] == "F" and list(kind[1]) == [0, 8, 16, 24, 32]:
+        return get_evse_by_type(name, CC)
     if kind[0] == "C":
         return EVSE(name, max_rate=kind[2], min_rate=kind[1])
     if kind[0] == "D":
@@ -478,12 +510,27 @@ def classes():
             self.event_type = "Tick"
             self.precedence = 30
 
+    class Replan(Event):                    # not a RecomputeEvent, but labelled like one
+        def __init__(self, timestamp):
+            super().__init__(timestamp)
+            self.event_type = "Recompute"
+            self.precedence = 25
+
+    from acnportal.acnsim.events.event import EVEvent
+
+    class GuestPlugin(EVEvent):             # not a PluginEvent, but labelled (and ordered) like one
+        def __init__(self, timestamp, ev):
+            super().__init__(timestamp, ev)
+            self.event_type = "Plugin"
+            self.precedence = 10
+
     # make the classes importable by dotted name, so that a JSON round trip (pydoc.locate) finds them
-    for c in (RecNet, RecAlgo, Maint, Tick):
+    for c in (RecNet, RecAlgo, Maint, Tick, Replan, GuestPlugin):
         c.__module__, c.__qualname__ = __name__, c.__name__
         globals()[c.__name__] = c
     _CLASSES.update(A)
-    _CLASSES.update(RecNet=RecNet, RecAlgo=RecAlgo, other=dict(bare=Event, maint=Maint, tick=Tick))
+    _CLASSES.update(RecNet=RecNet, RecAlgo=RecAlgo, GuestPlugin=GuestPlugin,
+                    other=dict(bare=Event, maint=Maint, tick=Tick, replan=Replan))
     return _CLASSES
 
 
@@ -737,7 +784,7 @@ def make_events(inp, nm):
             req = np.float64(req) if req != int(req) else int(req)
         ev = A["EV"](arr, dep, req, nm.station(s["station"]), nm.sess[s["sid"]],
                      A["Battery"](s["cap"], s["init"], s["maxp"]), estimated_departure=s["est"])
-        events.append(A["PluginEvent"](arr, ev))
+        events.append((A["GuestPlugin"] if inp.get("guest_plugins") and j % 2 == 0 else A["PluginEvent"])(arr, ev))
     for j, t in enumerate(inp["recomputes"]):
         events.append(A["RecomputeEvent"](np.int64(t) if npt and j % 2 else t))
     for t, cls in inp.get("others", ()):
@@ -849,6 +896,8 @@ def run_sim(sim, rec):
             break
         except (Boom, HardStop):
             err = "unresumed"
+            if rec.inp.get("abort"):
+                break
             if rec.inp.get("copy_on_resume"):
                 sim, rec = clone(sim, rec)
             elif rec.inp.get("json_on_resume"):
@@ -875,7 +924,15 @@ def run_impl(inp, mutate=False):
             psim, prec, perr = run_sim(psim, prec)
             if perr is not None or not psim.event_queue.empty():
                 shared = None                       # the prelude did not complete: nothing to reuse
+        if inp.get("family") == "sibling":
+            pre = inp["prelude"]
+            prec = Recorder(pre, Names(pre), mutate)
+            psim, _ = build(pre, prec)
+            run_sim(psim, prec)                     # aborted: its EVs stay plugged in on ITS network
+            keep_alive = psim                       # noqa  (the aborted experiment is still referenced)
         sim, shared = build(inp, rec, shared)
+        if any(e.ev is not None for e in sim.network._EVSEs.values()):
+            rec.flag("a freshly built network already has an EV plugged in")
     except Exception as e:      # noqa  (construction errors are part of the observable behaviour)
         return empty_trace(type(e).__name__)
     twin_box = {}
